@@ -611,6 +611,18 @@ def _ripple_add(abits, bbits, cin, w):
     return out
 
 
+def bits_subset(b, a):
+    """is every bit of b either 0, the very bit of a at that position, or a conjunction that includes it (b = a & something)?
+    Then b <= a bit for bit and a - b cannot borrow."""
+    for x, y in zip(a, b):
+        if y == 0 or y == x:
+            continue
+        if isinstance(y, tuple) and y[0] == 'and' and x in y[1]:
+            continue
+        return False
+    return True
+
+
 def bv_binop(op, a, b):
     """bit-level transfer; affine form maintained for Add/Sub/Mul-by-constant. No interval reasoning here."""
     w = a.w
@@ -672,6 +684,11 @@ def bv_binop(op, a, b):
         sub = op.startswith('Sub')
         if not sub and all(x == 0 or y == 0 for x, y in zip(a.bits, b.bits)):
             return BV(w, [b_or(x, y) for x, y in zip(a.bits, b.bits)], sg)
+        if sub and TOP not in a.bits and TOP not in b.bits:
+            # a - b where every bit of b is 0 or the very bit of a at that position (b = a & mask): no borrow can occur and the
+            # result is a with those bits cleared - the `x - (x & m)` spelling of `x & !m`
+            if all(y == 0 or y == x for x, y in zip(a.bits, b.bits)):
+                return BV(w, [x if y == 0 else 0 for x, y in zip(a.bits, b.bits)], sg)
         if sub:
             bits = _ripple_add(a.bits, tuple(b_not(x) for x in b.bits), 1, w)
         else:
